@@ -696,6 +696,9 @@ func main() {
 	// the public Query / Batch API on a capturing connection
 	connCases(o, g)
 
+	// live traffic of real sessions against the scripted node
+	liveCases(o, g)
+
 	// Conn.executeBatch on protocol 1: refused before any frame is built
 	refused := gocql.VerifC03BatchGuard(1)
 	if !o.Search {
